@@ -27,6 +27,7 @@ ASSUMPTIONS = [
 ]
 
 SRV = ("2001:db8::5", 5683)
+SRV2 = ("2001:db8::5", 5685)    # a second server endpoint of the same process (its own context): its own view of (endpoint, ID)
 P1 = ("2001:db8::1", 40001)
 P2 = ("2001:db8::1", 40002)   # same IP, other port
 P3 = ("2001:db8::3", 40001)   # other IP, same port
@@ -49,8 +50,10 @@ def build_world(kind, con, mid0):
     w = st.world = World(mid0=mid0)
     st.calls = {}
 
-    def note(request):
+    def note(request, two=False):
         k = (request.remote.sockaddr[:2], request.mid)
+        if two:
+            k = ("srv2",) + k
         st.calls[k] = st.calls.get(k, 0) + 1
 
     class Fast(resource.Resource):
@@ -80,6 +83,16 @@ def build_world(kind, con, mid0):
     site.add_resource(["fail"], Fail())
     site.add_resource(["slowfail"], SlowFail())
     st.srv = w.add_context("srv", *SRV, site=site)
+
+    class Fast2(resource.Resource):
+        async def render_get(self, request):
+            note(request, True)
+            return Message(payload=b"fast-from-2")
+    site2 = resource.Site()
+    for nm in ("fast", "slow", "fail", "slowfail"):
+        site2.add_resource([nm], Fast2())
+    st.srv2 = w.add_context("srv2", *SRV2, site=site2)
+    st.two = False
     for i, p in enumerate((P1, P2, P3)):
         w.add_peer(Peer("P%d" % (i + 1), *p))
     st.kind, st.con = kind, con
@@ -110,6 +123,8 @@ def events_of(st):
     evs = [("copy", i) for i in range(len(KEYS) if st.kind in ("slow", "slowfail") else 4)]
     if KEYS[0] in st.model:
         evs.append(("copy", 0, "alt"))
+    if st.two:
+        evs.append(("copy2", 0))
     if w.loop.next_timer() is not None:
         evs.append(("timer",))
     live = [m for m in st.model.values() if m["first"] + LIFETIME > w.loop.time()]
@@ -180,6 +195,32 @@ def apply(st, ev):
         if other:
             st.violations.append(Violation("reply-to-wrong-endpoint", "replies go to the sender only", [repr(d) for d in other],
                                            "messagemanager.py", {}, key="wrong-dst"))
+    elif ev[0] == "copy2":
+        # the same peer uses the same message ID towards the other server endpoint: that one has not seen it before
+        key = KEYS[ev[1]]
+        peer, mid = key
+        k2 = ("srv2",) + (peer[:2], mid)
+        now = w.loop.time()
+        m2 = st.model.get(k2)
+        fresh = m2 is None or now > m2["first"] + LIFETIME
+        before = st.calls.get(k2, 0)
+        w.inject(peer, SRV2, request_bytes(st, key))
+        after = st.calls.get(k2, 0)
+        if m2 is not None and abs(now - (m2["first"] + LIFETIME)) < 1e-6:
+            fresh = after != before        # exact tie with the expiry: either is fine
+        out = [dg.data for dg in w.sent[since:] if dg.src == SRV2 and dg.dst == peer]
+        stray = [dg for dg in w.sent[since:] if dg.src == SRV]
+        if fresh:
+            st.model[k2] = {"first": now, "ack": out[0] if (st.con and out) else None, "epoch": 1}
+            if after != before + 1 or (st.con and (len(out) != 1 or b"fast-from-2" not in out[0])) or stray:
+                st.violations.append(Violation("new-request-not-processed", "the other server endpoint processes its first (endpoint, mid) itself",
+                                               {"handler calls": after - before, "replies": [x.hex() for x in out], "from first server": len(stray)},
+                                               "messagemanager.py:_deduplicate_message", {}, key="second-server"))
+        else:
+            want = [m2["ack"]] if (st.con and m2["ack"] is not None) else []
+            if after != before or out != want:
+                st.violations.append(Violation("duplicate-reply", [x.hex() for x in want], [x.hex() for x in out],
+                                               "messagemanager.py:_deduplicate_message", {}, key="second-server-dup"))
     elif ev[0] == "timer":
         w.loop.fire_next_timer()
         note_wire(st, since)
@@ -208,8 +249,9 @@ def apply(st, ev):
 
 
 def make_build(kind, con, mid0):
-    def build(hist):
+    def build(hist, two=False):
         st = build_world(kind, con, mid0)
+        st.two = two
         for ev in hist:
             n = len(st.violations)
             apply(st, ev)
@@ -224,12 +266,12 @@ def canon(st):
     w = st.world
     now = w.loop.time()
     mm = st.srv.mman
-    model = sorted((k, round(now - m["first"], 6) if now - m["first"] <= LIFETIME + 1 else "expired", m["ack"], min(m["epoch"], 3))
-                   for k, m in st.model.items())
+    model = sorted(((k, round(now - m["first"], 6) if now - m["first"] <= LIFETIME + 1 else "expired", m["ack"], min(m["epoch"], 3))
+                    for k, m in st.model.items()), key=repr)
     recent = sorted((r.sockaddr[:2], mid, None if v is None else (int(v.mtype), int(v.code), v.mid))
                     for (r, mid), v in mm._recent_messages.items())
     piggy = sorted((r.sockaddr[:2], tok, mid) for (r, tok), (mid, h) in mm._piggyback_opportunities.items())
-    k = (model, recent, piggy, w.loop.pending_timers(), sorted((k, min(v, 3)) for k, v in st.calls.items()), mm.message_id,
+    k = (model, recent, piggy, w.loop.pending_timers(), sorted(((k, min(v, 3)) for k, v in st.calls.items()), key=repr), mm.message_id,
          sorted(st.acked), len(st.seps), sorted(mm._active_exchanges and [(r.sockaddr[:2], mid) for r, mid in mm._active_exchanges] or []))
     w.dispose()
     return core.digest(k)
@@ -241,6 +283,7 @@ PREFIXES = {
     "dup-mid": (("copy", 0), ("jump", "mid"), ("copy", 0), ("jump", "after"), ("copy", 0), ("jump", "mid")),
     "dup-late": (("copy", 0), ("jump", "before"), ("copy", 0), ("jump", "after"), ("copy", 0), ("jump", "before")),
     "two-peers": (("copy", 0), ("copy", 1), ("jump", "mid"), ("copy", 1), ("jump", "after"), ("copy", 0), ("copy", 1)),
+    "two-servers": ("two",),     # no prefix events: switches the second server's copy event on
 }
 
 
@@ -251,8 +294,12 @@ def job(arg):
     build0 = make_build(kind, con, mid0)
     name = "S-DUP-%s-%s-mid0=%#x%s" % (kind, "CON" if con else "NON", mid0, ("-prefix=" + arg[4]) if prefix else "")
 
+    two = prefix == ("two",)
+    if two:
+        prefix = ()
+
     def build(hist):
-        return build0(tuple(prefix) + tuple(hist))
+        return build0(tuple(prefix) + tuple(hist), two)
     if prefix:
         st0 = build(())
         for v in st0.violations:
@@ -298,7 +345,7 @@ def run(tier, seed, jobs):
     for kind in ("fast", "slow") if tier == "quick" else KINDS:
         for con in (True, False):
             for pname in PREFIXES:
-                work.append((kind, con, 0x7000, 2 if tier == "quick" else 3, pname))
+                work.append((kind, con, 0x7000, (3 if pname == "two-servers" else 2) if tier == "quick" else (4 if pname == "two-servers" else 3), pname))
     return core.prun(job, work, jobs)
 
 
